@@ -129,6 +129,13 @@ struct RunOut {
 }
 
 fn run_b3sum(sh: &Shared, args: &[std::ffi::OsString], stdin: &[u8]) -> Result<RunOut, OpErr> {
+    run_b3sum_split(sh, args, stdin, None)
+}
+
+/// `split`: deliver stdin in two writes with a pause, so that the child sees a short read first
+/// (a pipe or terminal delivering a key in pieces). Real time is involved, but only as a means: the
+/// verdict does not depend on whether the pause was long enough.
+fn run_b3sum_split(sh: &Shared, args: &[std::ffi::OsString], stdin: &[u8], split: Option<usize>) -> Result<RunOut, OpErr> {
     let Some(bin) = b3sum_bin() else { return Err(OpErr::Harness("B3SUM_BIN not set or missing".into())) };
     let dir = sh.scratch_dir()?;
     let mut child = std::process::Command::new(bin)
@@ -142,7 +149,18 @@ fn run_b3sum(sh: &Shared, args: &[std::ffi::OsString], stdin: &[u8]) -> Result<R
         .map_err(|e| OpErr::Harness(format!("spawn b3sum: {e}")))?;
     {
         let mut si = child.stdin.take().unwrap();
-        let _ = si.write_all(stdin); // the child may exit without reading its stdin
+        match split {
+            Some(k) if k > 0 && k < stdin.len() => {
+                let _ = si.write_all(&stdin[..k]);
+                let _ = si.flush();
+                std::thread::sleep(std::time::Duration::from_millis(60));
+                let _ = si.write_all(&stdin[k..]);
+                sh.fault("stdin_delivered_in_pieces");
+            }
+            _ => {
+                let _ = si.write_all(stdin); // the child may exit without reading its stdin
+            }
+        }
     }
     let out = child.wait_with_output().map_err(|e| OpErr::Harness(format!("wait b3sum: {e}")))?;
     Ok(RunOut { code: out.status.code(), stdout: out.stdout, stderr: out.stderr })
@@ -314,7 +332,14 @@ fn apply_damage(cf: &mut Vec<u8>, kind: &Damage) -> bool {
     }
 }
 
-const MUT_CHARS: &[&str] = &["0", "g", "A", " ", "\\", "\n", "\r", "\0", "\u{FFFD}", "é", "日", "😀", ")", "=", "n"];
+/// every printable ASCII character plus the characters that matter for the format
+fn mut_chars() -> Vec<String> {
+    let mut v: Vec<String> = (0x20u8..0x7f).map(|b| (b as char).to_string()).collect();
+    for s in ["\n", "\r", "\0", "\t", "\u{FFFD}", "é", "日", "😀", "\u{7f}"] {
+        v.push(s.to_string());
+    }
+    v
+}
 
 /// oracle for one line of arbitrary text (C13): never a panic; Ok only with what the documented
 /// format says; `must_ok` = the line is one b3sum printed for a representable path
@@ -420,7 +445,7 @@ pub fn do_cli(sh: &Arc<Shared>, _local: &mut TaskLocal, op: &Op) -> OpResult {
             for p in &pbytes {
                 args.push(std::ffi::OsString::from_vec(p.clone()));
             }
-            let out = run_b3sum(sh, &args, &stdin_bytes)?;
+            let out = run_b3sum_split(sh, &args, &stdin_bytes, flags.stdin_split.map(|k| k as usize))?;
             if let Some(c) = crashed(&out) {
                 return viol("panic", c);
             }
@@ -731,10 +756,11 @@ pub fn do_cli(sh: &Arc<Shared>, _local: &mut TaskLocal, op: &Op) -> OpResult {
             let chars: Vec<char> = base.chars().collect();
             let mut n = 0u64;
             let mut f = Fnv::default();
+            let mchars = mut_chars();
             for p in 0..=chars.len() {
                 for edit in 0..3 {
-                    for ch in MUT_CHARS {
-                        if edit == 2 && *ch != "0" {
+                    for ch in mchars.iter().map(|s| s.as_str()) {
+                        if edit == 2 && ch != "0" {
                             continue; // deletion does not depend on the character
                         }
                         if p == chars.len() && edit != 1 {
